@@ -72,7 +72,7 @@ class SimultaneousScheduler(Scheduler):
 
         self.current_time = time
 
-        self.progress = self.current_time / model.stoptime
+        self.progress = self.current_time / model.stoptime if model.stoptime else 1.0
 
         if progress_widget:
             progress_widget.value = self.progress
